@@ -105,6 +105,7 @@ def shapes(tier, max_entries=None):
         ("fff", [2, 1], {"times": "partial"}),
         ("fff", [1, 2], {"packcrc": True}),
         ("lf", [2], {}),
+        ("ff", [2], {"dummy": 200}),          # kDummy whose size needs a two-byte NUMBER
         ("d", [], {}),
         ("", [], {}),
     ]
